@@ -988,6 +988,11 @@ def engine_traces(ctx):
     'a redelivered start_task / result message changes no row'."""
     from harness import engine_trace as et
     et.trace_suite(ctx, ['C06'], ['dup', 'dup', 'operator'], 150, 2000, suite='engine_trace_C06')
+    # features outside the core model (sub-workflow results, with-items, retries, policies, data flow): every delivered
+    # result / start request may be delivered again at any later point; it must change nothing, and the run must end like
+    # the run of the same program without duplicates
+    from harness import engine_explore as ee
+    ee.explore(ctx, ['C06'], ee.FEATURES + ['subwf', 'joinsub', 'defaults'], ctx.n(27, 270), 3, suite='engine_explore_C06', dups=True)
 
 
 def run(ctx):
